@@ -131,7 +131,9 @@ PROPS = {
                        "thread in order ‖ strings in order), record k points at the k-th name's string; counterexample theorem for the repaired indexing. "
                        "The driver compares model and implementation byte for byte and decodes the implementation's stream against the named threads. "
                        "C15_image_refines: the thread-names stage of the whole-image model (Model/Dump.lean) is what the operational writer model produces; "
-                       "C15_image_name: in the model's image of any content, record j carries the j-th named thread's id and the location of its name string.",
+                       "C15_image_name: in the model's image of any content, record j carries the j-th named thread's id and the location of its name string. System_name (Theorems/System.lean): for the request as one function, the j-th named thread read at enumeration has record j of the thread-names stream with its id and the location of its own name string.",
+        "extra_modules": ["MdwModel.Theorems.System"],
+        "extra_theorems": ["System_name"],
     },
     "C01": {
         "rule": "real dumps of generated live targets (vtarget: 1 … 64 threads blocked in a raw syscall with any mix of named / unnamed / non-ASCII names, "
@@ -271,9 +273,9 @@ PROPS = {
                        "point comes first; the name rule; caller-supplied mappings follow verbatim. The readers' answers are those of the C14 model. "
                        "E2E_module_in_image (Theorems/EndToEnd.lean) carries this into the whole-image model: for a dump whose module content is this module "
                        "list, every such mapping has a record in the image's module-list stream (directory slot 1, counting exactly the gathered modules) with "
-                       "its base, size, CodeView record (ELF signature ‖ identifier) at the location the record names and the name string behind it.",
-        "extra_modules": ["MdwModel.Theorems.EndToEnd"],
-        "extra_theorems": ["E2E_module_in_image"],
+                       "its base, size, CodeView record (ELF signature ‖ identifier) at the location the record names and the name string behind it. System_module (Theorems/System.lean): the same for the request as one function from the observed target state to the image.",
+        "extra_modules": ["MdwModel.Theorems.EndToEnd", "MdwModel.Theorems.System"],
+        "extra_theorems": ["E2E_module_in_image", "System_module"],
     },
     "C17": {
         "rule": "live: MemReader::for_virtual_mem / for_file / for_ptrace and the reader without a chosen strategy (MemReader::new, what copy_from_process uses; target ptrace-stopped) on ranges inside, ending exactly at, and crossing the end of "
